@@ -217,6 +217,67 @@ def run_case(c):
             out['tts'] = tts
         except Exception as e:
             out['r'] = 'err ' + type(e).__name__
+    elif k == 'reuse':
+        out = run_reuse(st, c)
+    return out
+
+
+def run_reuse(st, c):
+    """the SAME argument objects handed to a send path several times"""
+    import copy
+    from tools import osc10
+    oli, clock = st['oli'], st['clock']
+    clock._elapsed_osc_offset = 0
+    n = st['NetAddr']('127.0.0.1', 57110)
+    n._osc_interface = st['cap']
+    sent = st['sent']
+    m = c['method']
+    if m == 'msg':
+        args = pv(c['args'])
+    else:
+        args = expand_els(c['els'])
+        if c.get('as') == 'tuple':
+            args = tuple(args)
+    snapshot = copy.deepcopy(args)
+    ids = iter(range(1000, 100000))
+    n._make_sync_responder = lambda cond: next(ids)
+
+    class Cond:
+        test = False
+
+        def wait(self):
+            return iter(())
+
+        def signal(self):
+            pass
+    t = None if c.get('time') is None else float.fromhex(c['time'])
+    calls = []
+    out = {'r': 'ok'}
+    try:
+        for _ in range(c['n']):
+            del sent[:]
+            if m == 'sync':
+                for _x in n.sync(Cond(), t, args):
+                    pass
+            elif m == 'sendc':
+                n.send_clumped_bundles(t, *args)
+            elif m == 'bundle':
+                n.send_bundle(t, *args)
+            else:
+                n.send_msg(*args)
+            per = []
+            for d in sent:
+                pkt = osc10.read_packet(d)
+                per.append([a.decode() for _, a, _ in osc10.flatten(pkt)])
+            calls.append({'counts': [len(x) for x in per], 'addrs': per, 'sizes': [len(d) for d in sent],
+                          'hex': [d.hex() for d in sent] if m in ('bundle', 'msg') else None})
+        out['calls'] = calls
+        out['r'] = 'ok ' + ';'.join(','.join(str(x) for x in cl['counts']) for cl in calls)
+        out['mutated'] = not (args == snapshot)
+        if m != 'msg':
+            out['elem_pred'] = elem_pred(n, c['els'])
+    except Exception as e:
+        out['r'] = 'err ' + type(e).__name__
     return out
 
 
